@@ -11,9 +11,9 @@ export const SPELLINGS = [
   ['v-Upper', 'upper'], ['vX', 'x'], ['v-show', 'show'], ['vShow', 'show'], ['v-a1', 'a1'], ['vHTMLish', 'hTMLish'],
   ['v-visible', 'visible'], ['vValidate', 'validate'], ['v-vv-dir', 'vv-dir'], ['v-v', 'v'], ['v--dash', '-dash'],
 ];
-export const SUFFIXES = [[], ['m1'], ['m1', 'm2'], ['zeta', 'alpha']];
+export const SUFFIXES = [[], ['m1'], ['m1', 'm2'], ['zeta', 'alpha'], ['snap-to-grid'], ['2x', 'm1']];
 export const NSARGS = [null, 'arg1', 'argCamel'];
-export const VALUE_FORMS = ['expr', 'call', 'arr1', 'arrArgStr', 'arrArgExpr', 'arrMods', 'arrArgStrMods', 'arrArgExprMods', 'str', 'none', 'arrEmptyMods'];
+export const VALUE_FORMS = ['expr', 'call', 'arr1', 'arrArgStr', 'arrArgExpr', 'arrMods', 'arrArgStrMods', 'arrArgExprMods', 'str', 'none', 'arrEmptyMods', 'jsxEl', 'jsxElBraced', 'jsxFrag'];
 export const HOSTKINDS = ['element', 'component'];
 export const NEIGHBOURS = ['none', 'attrBefore', 'attrAfter', 'secondDir', 'sameDirTwice', 'withShow', 'spreadBefore', 'classAndChild'];
 
@@ -39,6 +39,10 @@ export function makeDirective(b, spelling, suffixes, nsArg, form, tagN) {
     case 'arrArgExprMods': { const a = g(); valSrc = `{[${leafVal(g())}, ${a}, ["only"]]}`; if (!nsArg) den.arg = { k: 'leaf', i: b.leaf(a) }; mods = ['only']; break; }
     case 'str': valSrc = `"sv${tagN}"`; den.value = { k: 'str', v: `sv${tagN}` }; break;
     case 'none': valSrc = null; break;
+    // a JSX element / fragment as the value, written without and with braces
+    case 'jsxEl': valSrc = leafVal(`<b id="tip${tagN}">tip</b>`); break;
+    case 'jsxElBraced': valSrc = `{${leafVal(`<b id="tip${tagN}">tip</b>`)}}`; break;
+    case 'jsxFrag': valSrc = leafVal(`<>wait${tagN}</>`); break;
     default: throw new Error(form);
   }
   // a suffix list together with an array form that carries its own argument/modifier slots is not decided by the statement
